@@ -91,19 +91,31 @@ def overlay_flow_rows(s, size, focus):
     return False, None
 
 
+def rows_answers(s):
+    """overlay_flow_rows(...)[0] as one formula (for `raises_iff`: no case split)."""
+    ht, wt = s.height_type, s.width_type
+    return either(ht == "given", both(ht == "relative", _truthy(s.min_height), s.height_amount.val >= 1),
+                  both(ht == "pack", either(both(wt == "given", s.width_amount.val != 0), wt == "relative")))
+
+
+def rows_divides_by_zero(s):
+    return both(s.height_type == "relative", _truthy(s.min_height), s.height_amount.val == 0)
+
+
 @contract(OV + "Overlay.rows", property="C01", replayable=False)
 class overlay_rows:
     self_shape = OVERLAY
     params = dict(size=Tup(Int), focus=Bool)
     result = Int
     raises = (OverlayError, ZeroDivisionError)
+    raises_iff = {OverlayError: lambda s, a: both(neg(rows_answers(s)), neg(rows_divides_by_zero(s))), ZeroDivisionError: lambda s, a: rows_divides_by_zero(s)}
 
     def requires(s, a):
         return both(overlay_wf(s), size_ok(a.size))
 
     def ensures(old, s, a, result):
         ok, rows = overlay_flow_rows(old, a.size, a.focus)
-        yield "answers-only-when-the-height-is-determined", ok
+        yield "answers-only-when-the-height-is-determined", both(ok, rows_answers(old))
         if ok:
             yield "rows-as-documented", result == rows
             yield "nonnegative", result >= 0
@@ -113,8 +125,11 @@ class overlay_rows:
         # FAILS-ON-TREE (degenerate, width 0): Overlay(Text('a'), SolidFill(), 'left', 0, 'top', 'pack') reports FLOW
         # and rows((5,)) raises OverlayError
         yield "fails-only-for-an-overlay-that-does-not-report-flow", neg(modes[Sizing.FLOW])
+        # (exactly when, for the callers: `raises_iff`)
         if exc.cls is ZeroDivisionError:
-            yield "zero-division-only-for-a-relative-height-of-zero-percent", both(old.height_type == "relative", val(old.height_amount) == 0)
+            yield "zero-division-exactly-for-a-relative-height-of-zero-percent-with-a-minimum", rows_divides_by_zero(old)
+        else:
+            yield "overlay-error-exactly-when-the-height-is-not-determined", both(neg(rows_answers(old)), neg(rows_divides_by_zero(old)))
 
 
 def overlay_natural(s, focus):
@@ -141,6 +156,11 @@ def overlay_natural(s, focus):
     if s.height_type == "given":
         return True, cols, ha + er
     return True, cols, _half_up(val(s.min_height) * 100, ha)
+
+
+def _pack_answers(s):
+    """pack(()) answers (one formula): the width is 'pack' or known, and the height is 'pack' or known"""
+    return either(s.width_type == "pack", both(width_known(s), either(s.height_type == "pack", height_known(s))))
 
 
 @contract(OV + "Overlay.pack", property="C01", alias="sizes", replayable=False, inline=("urwid/widget/widget.py:Widget.pack",))
@@ -173,7 +193,69 @@ class overlay_pack:
         if len(a.size) == 0:
             yield "fixed-fails-only-for-an-overlay-that-does-not-report-fixed", neg(modes[Sizing.FIXED])
         else:
-            # (the flow case is Overlay.rows': the degenerate width-0 overlay that fails there is reported there)
+            # FAILS-ON-TREE (degenerate, width 0; the input recorded at overlay_rows): reports FLOW, pack((5,)) raises OverlayError
             yield "flow-fails-only-for-an-overlay-that-does-not-report-flow", both(len(a.size) == 1, neg(modes[Sizing.FLOW]))
         if exc.cls is WidgetError:
             yield "widget-error-only-for-a-flow-size", len(a.size) == 1
+
+
+from contracts.C09_overlay import OINL, _no_height  # noqa: E402
+
+
+@contract(OV + "Overlay.render", property="C01", alias="flow", inline=OINL, replayable=False)
+class overlay_render_flow:
+    """A flow size (maxcol,): `maxcol` columns and exactly rows((maxcol,)) rows; fails (OverlayError / WidgetError) only
+    where rows() does, i.e. for an Overlay that does not report FLOW."""
+    self_shape = OVERLAY
+    params = dict(size=Tup(Int), focus=Bool)
+    result = CCANVAS
+    raises = (WidgetError,)  # (OverlayError is a WidgetError)
+
+    def requires(s, a):
+        ok, rows = overlay_flow_rows(s, a.size, a.focus)
+        return both(overlay_wf(s), size_ok(a.size), (rows < DIMMAX) if ok else True)
+
+    def ensures(old, s, a, r):
+        ok, rows = overlay_flow_rows(old, a.size, a.focus)
+        yield "answers-only-when-rows-does", ok
+        if ok:
+            yield "cols-as-asked", r.ncols == a.size[0]
+            yield "rows-equal-own-rows", r.nrows == rows
+        yield "cursor-inside", canvas_wf(r)
+
+    def on_raise(old, s, a, exc):
+        # FAILS-ON-TREE (degenerate, width 0; the input recorded at overlay_rows): reports FLOW, render((5,)) raises OverlayError
+        yield "fails-only-for-an-overlay-that-does-not-report-flow", neg(overlay_modes(old)[Sizing.FLOW])
+
+
+def _ov_pack_effects(old, s, a, result):
+    cur().event("Overlay.pack", a.size, a.focus, result)  # callee use: the answer, in the caller's ghost trace
+
+
+overlay_pack.effects = staticmethod(_ov_pack_effects)
+
+
+@contract(OV + "Overlay.render", property="C01", alias="fixed", inline=OINL, replayable=False, contract_overrides={OV + "Overlay.pack": overlay_pack})
+class overlay_render_fixed:
+    """No size: exactly the size pack(()) reports (Overlay.pack is a call under contract here: overlay_pack); fails
+    (OverlayError) only where pack(()) does, i.e. for an Overlay that does not report FIXED -- or whose fixed top widget
+    packs to no rows (calculate_padding_filler refuses that)."""
+    self_shape = OVERLAY
+    params = dict(size=Tup(), focus=Bool)
+    result = CCANVAS
+    raises = (OverlayError,)
+
+    def requires(s, a):
+        # (sizes < 2^24: the natural size is a sane screen size)
+        ok, cols, rows = overlay_natural(s, a.focus)
+        return both(overlay_wf(s), both(cols < DIMMAX, rows < DIMMAX) if ok else True)
+
+    def ensures(old, s, a, r):
+        pk = [ev for ev in cur().trace if ev[0] == "Overlay.pack"]
+        yield "own-pack-asked-once-for-the-natural-size", both(len(pk) == 1, (len(pk[0][1]) == 0 and eq(pk[0][2], a.focus)) if pk else False)
+        if pk:
+            yield "size-equals-own-pack", both(r.ncols == pk[0][3][0], r.nrows == pk[0][3][1])
+        yield "cursor-inside", canvas_wf(r)
+
+    def on_raise(old, s, a, exc):
+        yield "fails-only-for-an-overlay-that-does-not-report-fixed-or-has-no-rows-to-show", either(neg(overlay_modes(old)[Sizing.FIXED]), _no_height(old, a))
